@@ -30,6 +30,8 @@ def run(ctx):
         if d.get("diag") == "unjudged":
             unj += 1
             continue
+        if d.get("what") == "hint":
+            raise vlib.Broken("a generated hard-edge case is inconsistent (machinery): %s" % json.dumps(d)[:400])
         ev = d.get("ev", {})
         if isinstance(ev.get("stops"), list) and len(ev["stops"]) > 6:
             ev["stops"] = ev["stops"][:3] + ["... %d stops" % len(ev["stops"])]
